@@ -382,6 +382,55 @@ impl PartialOrd for Num {
     }
 }
 
+/// Borrow / AsRef / Deref all name the value itself; Display and Pointer forward the caller's options
+fn view_rows(rep: &mut Report) {
+    use std::borrow::Borrow;
+    macro_rules! views {
+        ($what:expr, $t:ty, $a:expr) => {{
+            rep.evals += 1;
+            let a = $a;
+            let d: *const $t = &*a;
+            let b: *const $t = Borrow::<$t>::borrow(&a);
+            let r: *const $t = AsRef::<$t>::as_ref(&a);
+            if d != b || d != r || d != Arc::as_ptr(&a) {
+                rep.bad(concat!("Borrow / AsRef / Deref / as_ptr of one handle name different addresses: ", $what), String::new());
+            }
+        }};
+    }
+    views!("Arc<u64>", u64, Arc::new(5u64));
+    views!("Arc<()>", (), Arc::new(()));
+    views!("Arc<[u16]>", [u16], Arc::<[u16]>::from(vec![1u16, 2, 3]));
+    views!("Arc<str>", str, Arc::<str>::from("xyz"));
+    views!("Arc<[u8; 0]>", [u8; 0], Arc::new([0u8; 0]));
+    let s: Arc<str> = Arc::from("héllo");
+    let f = Arc::new(2.5f32);
+    rep.evals += 1;
+    macro_rules! disp {
+        ($fmt:literal) => {
+            if format!($fmt, s) != format!($fmt, &*s) {
+                rep.bad("Arc<str> Display: format options are not forwarded to the value", format!("{} gives {:?}", $fmt, format!($fmt, s)));
+            }
+            if format!($fmt, f) != format!($fmt, *f) {
+                rep.bad("Arc<f32> Display: format options are not forwarded to the value", format!("{} gives {:?}", $fmt, format!($fmt, f)));
+            }
+        };
+    }
+    disp!("{}");
+    disp!("{:>9}");
+    disp!("{:*<8}");
+    disp!("{:^7.3}");
+    disp!("{:.1}");
+    let a = Arc::new(7u32);
+    let t: ThinArc<u8, u8> = ThinArc::from_header_and_slice(1, &[2]);
+    for (h, want) in [(format!("{:p}", a), format!("{:p}", a.heap_ptr())), (format!("{:18p}", a), format!("{:18p}", a.heap_ptr())),
+                      (format!("{:p}", t), format!("{:p}", t.heap_ptr())), (format!("{:<20p}", t), format!("{:<20p}", t.heap_ptr()))] {
+        rep.evals += 1;
+        if h != want {
+            rep.bad("Pointer formatting of a handle is not the formatting of its block address", format!("{:?} vs {:?}", h, want));
+        }
+    }
+}
+
 fn unsized_rows(rep: &mut Report) {
     use unsize::{CoerceUnsize, Coercion};
     let shapes: Vec<Arc<dyn Shape>> = vec![
@@ -621,6 +670,7 @@ pub fn run(total_rows: &str, partial_rows: &str, refl_rows: &str, out_path: &str
     sized_rows::<Refl>(&mut rep);
     hash_rows(&mut rep);
     unsized_rows(&mut rep);
+    view_rows(&mut rep);
     format_rows(&mut rep);
     if samples.is_empty() {
         samples.push(json!("(no row sampled)"));
